@@ -197,3 +197,29 @@ func H_Member_Rect(_ []int) {
 	vAssert(o.ContainsPoint(q) == same && o.IntersectsPoint(q) == same, "C01.point-point")
 	vCover("rect.done")
 }
+
+// H_Member_RectRing: a polygon whose exterior ring IS a Rect (the generic, non-series branch of ringContainsPoint;
+// such polygons are built by the library itself when it converts rectangles): membership is the closed box,
+// and a rectangular hole given as a Rect is excluded except for its boundary.
+func H_Member_RectRing(_ []int) {
+	r := Rect{vPoint("min", 0), vPoint("max", 0)}
+	vAssume(r.Min.X <= r.Max.X && r.Min.Y <= r.Max.Y)
+	q := vPoint("q", 0)
+	in := q.X >= r.Min.X && q.X <= r.Max.X && q.Y >= r.Min.Y && q.Y <= r.Max.Y
+	poly := &Poly{Exterior: r}
+	vAssert(poly.ContainsPoint(q) == in, "C01.rect-ring-contains")
+	vAssert(poly.IntersectsPoint(q) == in, "C01.rect-ring-intersects")
+	vAssert(q.IntersectsPoly(poly) == in, "C01.point-intersects-rect-ring")
+	res := ringContainsPoint(r, q, true)
+	vAssert(res.hit == in, "C01.rect-ring-closed")
+	strict := q.X > r.Min.X && q.X < r.Max.X && q.Y > r.Min.Y && q.Y < r.Max.Y
+	if r.Min.X < r.Max.X && r.Min.Y < r.Max.Y {
+		vAssert(ringContainsPoint(r, q, false).hit == strict, "C01.rect-ring-open")
+	}
+	h := Rect{vPoint("hmin", 0), vPoint("hmax", 0)}
+	vAssume(h.Min.X < h.Max.X && h.Min.Y < h.Max.Y)
+	inHoleOpen := q.X > h.Min.X && q.X < h.Max.X && q.Y > h.Min.Y && q.Y < h.Max.Y
+	ph := &Poly{Exterior: r, Holes: []Ring{h}}
+	vAssert(ph.ContainsPoint(q) == (in && !inHoleOpen), "C01.rect-ring-with-rect-hole")
+	vCover("rectring.done")
+}
